@@ -258,9 +258,23 @@ pub fn run(o: &Opts, rng: &mut Rng) -> Sink {
         let resp = body(rng);
         let mut nonce = [0u8; 32];
         for b in nonce.iter_mut() { *b = if rng.chance(1, 4) { rng.below(17) as u8 } else { rng.next() as u8 }; }
+        // DER integers are minimal-length: about one authentic signature in 60 is shorter than 70 bytes. Every fifth case
+        // looks for one (the response body gets a counter appended until r or s has a leading zero byte).
+        let mut resp = resp;
+        if case % 5 == 1 {
+            let base = resp.clone();
+            for k in 0..600u32 {
+                let mut cand = base.clone(); cand.extend_from_slice(format!(" {}", k).as_bytes());
+                let d = compose(&req, &cand, kid, &nonce, 0);
+                let sg: p256::ecdsa::Signature = sks[signer].sign(&d);
+                let b = sg.as_bytes();
+                if b[0] == 0 || b[32] == 0 { resp = cand; break; }
+            }
+        }
         let digest = compose(&req, &resp, kid, &nonce, 0);
         let sig: p256::ecdsa::Signature = sks[signer].sign(&digest);
         let rs = sig.as_bytes().to_vec();
+        if rs[0] == 0 || rs[32] == 0 { sink.bump("gen:short-der-signature"); }
         let ex = Exchange { req: req.clone(), resp: resp.clone(), nonce, kid, sig_rs: rs.clone() };
         let der = der_sig(&rs[..32], &rs[32..]);
         let hash = Sha256::digest(&req).to_vec();
